@@ -332,11 +332,15 @@ impl<'a> LoweringManager<'a> {
           let call = if vec_returns_element {
             if return_type.is_int32() {
               wasm::InlineInstruction::DirectCall(mir::FunctionName::UNWRAP_I31, vec![call])
-            } else {
+            } else if return_type.is_id() {
               wasm::InlineInstruction::Cast {
                 pointer_type: return_type.clone(),
                 value: Box::new(call),
               }
+            } else {
+              // An element whose type is already (ref eq), such as an enum with variants without
+              // data: there is no struct type to cast to.
+              call
             }
           } else {
             call
